@@ -166,7 +166,19 @@ def strict_spec_class(base=None):
                     return PortValidationError('None is not a value', breadcrumbs_to_port((*breadcrumbs, self.name)))
                 return super().validate(value, breadcrumbs)
 
-        _STRICT_SPECS[base] = type('StrictSpec', (base,), {'OUTPUT_PORT_TYPE': NotNoneOutputPort})
+        class NotNoneNamespace(base.PORT_NAMESPACE_TYPE):
+            # ... and a namespace class of its own whose rule for dynamic values refuses None as well (at any depth)
+            def validate_dynamic_ports(self, port_values, breadcrumbs=()):
+                def has_none(value):
+                    if isinstance(value, dict):
+                        return any(has_none(sub) for sub in value.values())
+                    return value is None
+
+                if has_none(port_values):
+                    return PortValidationError('None is not a value', breadcrumbs_to_port((*breadcrumbs, self.name)))
+                return super().validate_dynamic_ports(port_values, breadcrumbs)
+
+        _STRICT_SPECS[base] = type('StrictSpec', (base,), {'OUTPUT_PORT_TYPE': NotNoneOutputPort, 'PORT_NAMESPACE_TYPE': NotNoneNamespace})
     return _STRICT_SPECS[base]
 
 
@@ -175,6 +187,7 @@ def mark_strict(tree):
     tree = copy.deepcopy(tree)
 
     def walk(node):
+        node['strict_ns'] = True
         for sub in node['ports'].values():
             if sub['kind'] == 'ns':
                 walk(sub)
@@ -390,6 +403,8 @@ def _check_dynamic(tree, value):
     if isinstance(value, dict):
         for sub in value.values():
             _check_dynamic(tree, sub)
+    elif tree.get('strict_ns') and value is None:
+        raise Reject('None refused by the namespace class')
     elif not _type_ok(value, tree['valid_type']):
         raise Reject('dynamic value of wrong type')
 
@@ -441,6 +456,8 @@ def emit(tree, path, value):
             if not effective_dynamic(cur):
                 raise Reject('no such namespace')
             sub = ns({}, required=cur['required'], dynamic=effective_dynamic(cur), valid_type=cur['valid_type'], validator=cur['validator'], populate_defaults=cur['populate_defaults'])
+            if cur.get('strict_ns'):
+                sub['strict_ns'] = True  # namespaces created on the fly are of the class of the namespace that creates them
             cur['ports'][part] = sub
         elif sub['kind'] != 'ns':
             raise Reject('a port is in the way')
